@@ -1060,6 +1060,8 @@ fn check_build(src_name: &str, path: &Path, opts: &fcx::Opts, product: bool, cnt
             let tag = if emit { "ir" } else { "plain" };
             let out = dir.join(&format!("{tag}.ttf"));
             let mut cmd = vcore::fontc_cmd(&vcore::fontc_bin(), None);
+            // two pool threads: the parallel code path, without 16 checks x 16 threads on a shared machine
+            cmd.env("RAYON_NUM_THREADS", "2");
             cmd.arg(path).arg("-o").arg(&out).arg("-b").arg(dir.join(&format!("build-{tag}")));
             if emit {
                 cmd.arg("--emit-ir");
@@ -1197,6 +1199,7 @@ fn part_font(rep: &mut Reporter, tier: Tier) -> Stats {
     rep.set("build_samples", samples);
     rep.assume("parts (a), (b), (d): generated designs J0, J1, J2 (checks::sources), 'names' (glyphs a, A, con, CON, nul, a.b, a_b, A_ with anchors and kerning) and 'closekern' (kerning masters at normalized 0.501 and 0.504), plus repo fixtures (quick: six named ones; thorough: every .designspace/.glyphs/.glyphspackage/.ufo of resources/testdata and its glyphs2, glyphs3, dspace_rules, designspace_from_glyphs folders), each under six option sets");
     rep.assume("(b) uses the cfg(fontc_verif) read-back events of ContextItem/ContextMap::set; the id ExtraFeaTables is exempt because its os2_builder field is documented as session-only; (d) counts files: features.marker is the one documented file written without a context item and is set aside; equality of the two counts is what is asserted, a collision and a stray file in the same build would cancel out (part (c) covers the naming function itself)");
+    rep.assume("the product binary is run with RAYON_NUM_THREADS=2 (both runs of a pair alike)");
     rep.assume("a source that does not build must fail the same way with and without IR; such cases are counted, not judged further");
     drop(gen_dir);
     Stats {
